@@ -99,6 +99,11 @@ def rule_D1(prog):
             continue
         hunk_writers = [e.path for e in entries if "UnifiedDiffHunk" in e.path]
         ok = any(h in g.edges.get(fn.path, ()) for h in hunk_writers)
+        if not ok:
+            # the hunk loop may be a closure (`hunks.try_for_each(|hunk| hunk.to_writer(&mut w))`)
+            for cf in prog.closures_of.get(fn.path, []):
+                if any(h in g.edges.get(cf.path, ()) for h in hunk_writers):
+                    ok = True
         r.ob(ok, "%s delegates hunks to UnifiedDiffHunk::to_writer: %s" % (_short(fn.path), ok))
         if not ok:
             r.find(_short(fn.path), "no-delegate",
